@@ -179,10 +179,13 @@ def derived_case(R, base, route, spec, prefolds, aux, seed, nb=None, method=None
     except NotApplicable:
         dist['not_applicable'] = dist.get('not_applicable', 0) + 1
         return False
-    except Exception as e:  # noqa      building the source is not what C07 speaks about: counted and shown, not failed
+    except Exception as e:  # noqa      the routes fold (prefolds), copy, convert and unfold on the way: a raise there is a failure with its input
         k = 'source_construction_raised:%s:%s' % (route, type(e).__name__)
         dist[k] = dist.get(k, 0) + 1
-        return False
+        R.ctx.fail('building a fold source through route %r raised %s: %s' % (route, type(e).__name__, str(e)[:160]),
+                   {'route': route, 'spec': fpgen.spec_to_json(spec) if hasattr(fpgen, 'spec_to_json') else str(spec), 'prefolds': [list(map(str, p)) for p in prefolds], 'seed': seed},
+                   finding_key='fold:derived-source-raises')
+        return True
     bits = int(a.bits)
     if nb is None:
         hit = [p for p in prefolds if p[0] <= bits and p[0] in [c[0] for c in base.chains(bits)]]
